@@ -119,6 +119,91 @@ def run(chk):
 
 
 # ---------------------------------------------------------------------------
+def unit_view(prog, f):
+    """Copy of Func `f` in which accessor methods of the DistanceUnit enum are spelled out at their call sites
+    (`DistanceUnit.factor(u)` with `def factor(cls, unit): _unit = unit if isinstance(unit, cls) else cls[unit]; return _unit.value`
+    becomes `DistanceUnit[u].value`): the coercion `x if isinstance(x, DistanceUnit) else DistanceUnit[x]` is "the member designated by
+    x", and a walrus in the test of an `if` is lifted into a statement before it.  The rules about unit sites then see one spelling."""
+    import copy as _copy
+    import dataclasses as _dc
+
+    from ..canon import Env
+
+    ci = prog.cls(f"{GEO}:DistanceUnit")
+    meths = {}
+    for s_ in ci.node.body:
+        if isinstance(s_, ast.FunctionDef):
+            decos = {norm(d) for d in s_.decorator_list}
+            rets = [r for r in ast.walk(s_) if isinstance(r, ast.Return) and r.value is not None]
+            if len(rets) == 1 and decos <= {"classmethod", "staticmethod"}:
+                meths[s_.name] = (s_, Env(s_).expand(rets[0].value, depth=6), "classmethod" in decos, not decos)
+    node = _copy.deepcopy(f.node)
+    changed = False
+
+    class Coerce(ast.NodeTransformer):
+        def visit_IfExp(self, n):
+            self.generic_visit(n)
+            t = n.test
+            if isinstance(t, ast.Call) and norm(t.func) == "isinstance" and len(t.args) == 2 and norm(t.args[1]) == "DistanceUnit" and norm(n.body) == norm(t.args[0]) \
+                    and isinstance(n.orelse, ast.Subscript) and norm(n.orelse.value) == "DistanceUnit" and norm(n.orelse.slice) == norm(t.args[0]):
+                return n.orelse
+            return n
+
+    class Calls(ast.NodeTransformer):
+        def visit_Call(self, n):
+            nonlocal changed
+            self.generic_visit(n)
+            if isinstance(n.func, ast.Attribute) and n.func.attr in meths and not n.keywords:
+                fn, expr, is_cls, is_inst = meths[n.func.attr]
+                recv = n.func.value
+                params = [a.arg for a in fn.args.args]
+                if is_cls and norm(recv) == "DistanceUnit" and len(n.args) == len(params) - 1:
+                    m = dict(zip(params[1:], n.args))
+                    m[params[0]] = ast.Name("DistanceUnit", ast.Load())
+                elif is_inst and len(n.args) == len(params) - 1:
+                    m = dict(zip(params[1:], n.args))
+                    m[params[0]] = recv
+                else:
+                    return n
+
+                class S(ast.NodeTransformer):
+                    def visit_Name(self, x):
+                        return _copy.deepcopy(m[x.id]) if x.id in m else x
+                changed = True
+                return Coerce().visit(S().visit(_copy.deepcopy(expr)))
+            return n
+
+    node = Calls().visit(node)
+    if not changed:
+        return f
+
+    def lift(blk):
+        out = []
+        for s_ in blk:
+            for fld in ("body", "orelse", "finalbody"):
+                b = getattr(s_, fld, None)
+                if isinstance(b, list) and b and isinstance(b[0], ast.stmt):
+                    setattr(s_, fld, lift(b))
+            if isinstance(s_, ast.If):
+                ws = [w for w in ast.walk(s_.test) if isinstance(w, ast.NamedExpr)]
+                for w in ws:
+                    out.append(ast.copy_location(ast.Assign([ast.Name(w.target.id, ast.Store())], w.value), s_))
+
+                class U(ast.NodeTransformer):
+                    def visit_NamedExpr(self, x):
+                        return ast.Name(x.target.id, ast.Load())
+                if ws:
+                    s_.test = U().visit(s_.test)
+            out.append(s_)
+        return out
+
+    node.body = lift(node.body)
+    ast.fix_missing_locations(node)
+    g = _dc.replace(f)
+    g.node = node
+    return g
+
+
 def _unit_members(chk):
     prog = chk.prog
     ci = prog.cls(f"{GEO}:DistanceUnit")
@@ -185,6 +270,7 @@ def r1_units(chk):
     for f in prog.functions():
         if not (f.module.name.startswith("molli.chem") or f.module.name.startswith("molli.parsing")):
             continue
+        f = unit_view(prog, f)
         sites = unit_sites(f.node, scale_mult)
         if not sites:
             tsites = _table_sites(chk, f, vals, scale_mult)
@@ -218,6 +304,20 @@ def r1_units(chk):
                 t = g.test
                 okg = isinstance(t, ast.Compare) and isinstance(t.ops[0], ast.NotEq) and "DistanceUnit.Angstrom" in (norm(t.left), norm(t.comparators[0])) \
                     and (("source_units" in names_in(t)) or bool(names_in(t) & st["unit_names"]))
+                # `<the unit's value, or the factor made from it> != 1.0` says the same when Angstrom (and its aliases) is the only member worth 1
+                if not okg and isinstance(t, ast.Compare) and len(t.ops) == 1 and isinstance(t.ops[0], ast.NotEq):
+                    sides = [t.left, t.comparators[0]]
+                    one = [x for x in sides if isinstance(x, ast.Constant) and x.value in (1, 1.0)]
+                    other = [x for x in sides if x not in one]
+                    only_angstrom = all(_close(v_, 1.0) == (ANGSTROM_PER.get(nm_) == 1.0) for nm_, (v_, _n) in vals.items() if nm_ in ANGSTROM_PER)
+                    if one and other and only_angstrom:
+                        from ..canon import Env as _Eg
+
+                        spelled = _Eg(f.node).expand(other[0], at=g)
+                        # the value itself, or its reciprocal: both are 1 exactly for Angstrom
+                        if any(isinstance(x, ast.Attribute) and x.attr == "value" and "DistanceUnit" in names_in(x) for x in ast.walk(spelled)) \
+                                and not (names_in(spelled) - {"DistanceUnit", "source_units", "float"} - st["unit_names"]):
+                            okg = True
                 chk.decide(okg, "C08.R1", f"{f.key}:unit-scaling-guard" + ("" if k == 0 else f":{k}"), f.where(g), "scaling skipped only when the source unit is Angstrom",
                            f"the unit conversion is conditioned on `{norm(g.test)}`")
         if contains_yield(f.node):
@@ -319,7 +419,7 @@ def unit_sites(fn, scale_mult=True):
         for v in vals:
             if isinstance(v, ast.AST) and not isinstance(v, ast.Subscript):
                 uv = unit_values(v)
-                if uv and isinstance(v, (ast.BinOp, ast.Attribute, ast.Call)) and not any(isinstance(x, ast.Name) and x.id != n and x.id not in unit_names and x.id not in ("float", "np")
+                if uv and isinstance(v, (ast.BinOp, ast.Attribute, ast.Call)) and not any(isinstance(x, ast.Name) and x.id != n and x.id not in unit_names and x.id not in ("float", "np", "DistanceUnit", "source_units")
                                                                                            for x in ast.walk(v) if isinstance(x, ast.Name)):
                     factor_names[n] = +1 if _position(v, uv[0]) == "num" else -1
     sites = []
@@ -655,6 +755,9 @@ def r3_frames(chk):
               and len(loops[0].body) == 1 and isinstance(loops[0].body[0], ast.Expr) and isinstance(loops[0].body[0].value, ast.Call)
               and loops[0].body[0].value.func.attr == m and norm(loops[0].body[0].value.args[0]) == f.params()[1]
               and not any(k.arg == "write_header" for k in loops[0].body[0].value.keywords))
+        if not ok and not any(isinstance(c_, ast.Call) and isinstance(c_.func, ast.Attribute) and c_.func.attr == m for c_ in walk_no_nested(f.node)) \
+                and any(isinstance(c_, ast.Call) and norm(c_.func) == f"{f.params()[1]}.write" for c_ in walk_no_nested(f.node)):
+            raise AnalysisError(f"{f.key} writes its records itself (no delegation to the conformers' {m}): its own writer is not decided")
         chk.decide(ok, "C08.R3" if m == "dump_xyz" else "C08.R3", f"{f.key}:every-conformer-in-order", f.where(),
                    f"for conf in self: conf.{m}(stream)", f"ConformerEnsemble.{m} does not write every conformer, in order, each with its header, to the given stream")
     # every frame is built from its own block: the per-block generators carry no local from one block into the next
@@ -779,7 +882,7 @@ def r5_empty_shape(chk):
 def r4_terminal(chk):
     prog = chk.prog
     for spec in (f"{GEO}:CartesianGeometry.yield_from_xyz", "molli.chem.structure:Structure.yield_from_mol2"):
-        f = prog.func(spec)
+        f = unit_view(prog, prog.func(spec))
         sites = unit_sites(f.node)
         asg = assignments(f.node)
         # the unit must be looked up from the `source_units` parameter
